@@ -194,7 +194,7 @@ class Check:
             "checker_cmd": f"bin/check {self.prop_id} {self.tier}",
             "trusted_base": [
                 "pyvc symbolic executor + value model (DESIGN 2.3), re-reading /repo source on every run",
-                "list-homomorphism lemma schemas lean/Lemmas.lean: " + _lean_status(),
+                "lemma schemas behind the ground instances (lean/Lemmas.lean, lean/Columns.lean): " + _lean_status(),
                 "spec library / reference models under /verif/spec (validated against CPython each run)",
                 "cvc5 1.0.3 (--strings-exp) and z3 5.1.0 'unsat' answers",
                 "CPython 3.12 semantics of the supported constructs",
